@@ -156,6 +156,12 @@ def run(env, cfg, cid, prog_builder, poison, seed=b"", prev=None):
     except Exception:
         invalidate(env, cfg)
         raise
+    finally:
+        if prev is not None and prev != cid:
+            # whatever an earlier selection may have left behind must not leak into LATER cases of this runner
+            # (a failure has to reproduce from its own case in a fresh process): start the next case in a new process
+            env.runner(cfg).ncases = env.runner(cfg).recycle
+            invalidate(env, cfg)
     if res.failed_new:
         raise Unsupported()
     res.calls = res.calls[skip:]
